@@ -119,3 +119,28 @@ func init() {
 	fire("C20", "errors-channel-not-closed", up, `\tclose\(errors\)\n`, ``, "CHANLIFE/close-once")
 	fire("C20", "wrong-element-name", up, `startElement\.Name\.Local == "entry"`, `startElement.Name.Local == "entries"`, "GUARD/entry send")
 }
+
+// Positive examples for the rules whose instance count on the current tree is zero (they report only
+// when the hazardous construct appears): each must fire on its variant on every thorough run.
+func init() {
+	gb := "io/genbank/genbank.go"
+	cd := "transform/codon/codon.go"
+	fire := func(prop, name, file, find, repl, expect string) {
+		addVariant(variant{Prop: prop, Name: name, File: file, Find: find, Replace: repl, Expect: expect})
+	}
+	fire("C01", "reference-split-on-two-blanks", gb, `reference\.Index = strings\.Split\(base, " "\)\[0\]`, `reference.Index = strings.SplitN(base, "  ", 2)[0]`, "FIELDMAP-R/REFERENCE number")
+	fire("C03", "qualifier-keys-sorted-case-insensitively", gb, `sort\.Strings\(qualifierKeys\)`, `sort.Slice(qualifierKeys, func(i, j int) bool { return strings.ToLower(qualifierKeys[i]) < strings.ToLower(qualifierKeys[j]) })`, "MAPORDER/")
+	fire("C03", "one-base-location-printed-before-flags", gb, `func BuildLocationString\(location poly\.Location\) string \{\n`, "func BuildLocationString(location poly.Location) string {\n\tif len(location.SubLocations) == 0 && location.End-location.Start == 1 {\n\t\treturn strconv.Itoa(location.End)\n\t}\n", "TERM-PRINT/every form")
+	fire("C05", "circular-flag-cleared-for-short-input", "seqhash/seqhash.go", `\tsequence = strings\.ToUpper\(sequence\)\n`, "\tsequence = strings.ToUpper(sequence)\n\tif len(sequence) < 2 {\n\t\tcircular = false\n\t}\n", "TERM-FORMAT/flag circular")
+	fire("C08", "add-table-appends-into-first-operand", cd, `var finalCodons \[\]Codon\n\t\tfor _, firstCodon`, "finalCodons := firstAa.Codons[:0]\n\t\tfor _, firstCodon", "WRITERS/AddCodonTable")
+	fire("C09", "extension-skips-bodies-already-in-seed", "clone/clone.go", `if seedFragment\.ReverseOverhang == newFragment\.ForwardOverhang \{`, `if seedFragment.ReverseOverhang == newFragment.ForwardOverhang && !strings.Contains(seedFragment.Sequence, newFragment.Sequence) {`, "TERM-LIGATE/forward")
+	fire("C10", "short-stretches-dropped", "clone/clone.go", `\t\tfor _, fragment := range fragmentSeqs \{\n`, "\t\tfor _, fragment := range fragmentSeqs {\n\t\t\tif len(fragment) <= 2*enzyme.OverhangLen {\n\t\t\t\tcontinue\n\t\t\t}\n", "TERM-GEOM/Fragment")
+	fire("C12", "scan-stops-at-long-border", "seqhash/seqhash.go", `\t\tfailure := failureSlice\[characterIndex-leastRotationIndex-1\]\n`, "\t\tfailure := failureSlice[characterIndex-leastRotationIndex-1]\n\t\tif failure+1 > len(sequence)/4 {\n\t\t\tbreak\n\t\t}\n", "ORDER-DIR/BYTEWISE")
+	fire("C13", "non-blocking-final-send", "io/fasta/fasta.go", `\tsequences <- newFasta\n\tclose\(sequences\)`, "\tselect {\n\tcase sequences <- newFasta:\n\tdefault:\n\t}\n\tclose(sequences)", "CHANLIFE/blocking-sends")
+	fire("C14", "attribute-pairs-trimmed", "io/gff/gff.go", `strings\.Split\(attribute, "="\)`, `strings.Split(strings.TrimSpace(attribute), "=")`, "FIELDMAP/Parse:col9")
+	fire("C15", "features-readded-conditionally", "io/polyjson/polyjson.go", `\t\tsequence\.AddFeature\(&feature\)\n`, "\t\tif feature.SequenceLocation.End <= len(sequence.Sequence) {\n\t\t\tsequence.AddFeature(&feature)\n\t\t}\n", "RELINK/Parse:AddFeature")
+	fire("C16", "payload-cut-with-trimleft", "io/rebase/rebase.go", `enzyme\.Name = line\[3:\]`, `enzyme.Name = strings.TrimLeft(line, "<1>")`, "FIELDMAP/<1>")
+	fire("C18", "cutoff-truncated-to-percent", cd, `cutOffWeight := int\(10000 \* cutOff\)`, `cutOffWeight := 100 * int(100*cutOff)`, "TERM-COMP/0 iff")
+	fire("C20", "unexpected-eof-ends-silently", "io/uniprot/uniprot.go", `err\.Error\(\) == "EOF"`, `err.Error() == "EOF" || err == io.ErrUnexpectedEOF`, "LOOPEXIT/only io.EOF")
+	fire("C20", "error-channel-of-one", "io/uniprot/uniprot.go", `make\(chan error, 100\)`, `make(chan error, 1)`, "CHANLIFE/Read:error channel")
+}
